@@ -311,7 +311,7 @@ func checkHarness(P *Program, o checkOpts, h string, known map[string]KnownFindi
 	cfg.Sem = sem
 	cfg.Known = known
 	cfg.Verbose = o.Verbose
-	he := harnessEvidence{Name: h, AssertsReached: map[string]int{}, CoversReached: map[string]int{}}
+	he := harnessEvidence{Name: h, Bounds: P.HarnessDoc(h), AssertsReached: map[string]int{}, CoversReached: map[string]int{}}
 	hr, err := Explore(P, h, cfg)
 	if err != nil {
 		inconclusive("explore " + h + ": " + err.Error())
@@ -500,6 +500,7 @@ func checkHarness(P *Program, o checkOpts, h string, known map[string]KnownFindi
 
 type harnessEvidence struct {
 	Name            string         `json:"name"`
+	Bounds          string         `json:"bounds_and_oracle,omitempty"`
 	Paths           int            `json:"paths"`
 	OK              int            `json:"ok"`
 	EndedByAssume   int            `json:"ended_by_assume"`
@@ -700,6 +701,12 @@ func runCheck(o checkOpts) int {
 			"known_findings_hit":         knownHit,
 			"inconclusive":               inconcl,
 			"ssa":                        map[string]interface{}{"load_s": round3(P.LoadSecs), "build_s": round3(P.BuildSecs), "source": "/repo working tree via harness go.mod replace"},
+			"engine_budgets": func() map[string]interface{} {
+				c := tierConfig(o.Tier, o.Workers)
+				return map[string]interface{}{"instructions_per_path": c.MaxSteps, "call_depth": c.MaxDepth, "paths_per_harness": c.MaxPaths,
+					"solver_timeout_ms_per_query": c.QueryTimeoutMs, "threads": c.MaxThreads, "preemptions_per_schedule": c.MaxPreempt,
+					"native_cross_validation_samples_per_harness": c.SampleModels}
+			}(),
 		},
 		"assumptions": []string{
 			"bounds are those written in each harness (sym.* sizes, Choice families) and the engine budgets (instructions per path, call depth); nothing outside them is claimed",
